@@ -354,12 +354,15 @@ func checkEngineTables(c *Ctx, r *Report, clause string) {
 		}
 		var labels []string
 		var s2 []string
-		for _, sw := range w.switches(fi, func(tag ast.Expr) bool {
-			t := fi.Pkg.TypesInfo.TypeOf(tag)
-			return t != nil && strings.HasSuffix(t.String(), "definitions.RoutingEngineType")
-		}) {
-			labels = append(labels, sw.Labels...)
-			s2 = append(s2, w.pos(sw.Pos))
+		{
+			labs, ps := w.dispatchLabels(fi, func(tag ast.Expr) bool {
+				t := fi.Pkg.TypesInfo.TypeOf(tag)
+				return t != nil && strings.HasSuffix(t.String(), "definitions.RoutingEngineType")
+			})
+			labels = append(labels, labs...)
+			for _, p := range ps {
+				s2 = append(s2, w.pos(p))
+			}
 		}
 		ruleSetEqual(c, r, clause, "engine:oneof=="+fnk+"-cases", "every engine a validated configuration can name has an arm in "+fnk+" (its panic is unreachable)", "oneof of RoutesConfig.Engine", oneof, fnk+" switch", dedupSorted(labels), append(ss, s2...))
 	}
